@@ -281,8 +281,10 @@ def _execute(spec, tspec, seq, personality, garbage, rng_seq):
                 res = ee.calculate(x, compute_functions=True, compute_gradients=True)
                 last = x
             else:
-                B = int(rng_seq.integers(1, 4))
+                B = int(rng_seq.integers(1, 5))
                 x = x0[None, :] + rng_seq.normal(size=(B, V)) * 0.1
+                if B >= 2 and rng_seq.random() < 0.4:
+                    x[B - 1] = x[0]          # a population may hold the same vector twice: two members, two sets of rows
                 if cfg.variables.mask is not None:
                     x = np.where(cfg.variables.mask[None, :], x, x0[None, :])
                 res = ee.calculate(x, compute_functions=True, compute_gradients=False)
